@@ -383,6 +383,9 @@ package dragonboat
 //@ modifies held(p.mu), entries(p.batches), p.lastGcTime, gRIAppliedCalled
 //@ ghostset gRIAppliedCalled := true
 //@ loop 1 step !(sys in p.batches) ==> rb.index > 0 && rb.index <= applied
+// C12: every request of a batch that is released and dropped from the table has been given its (one)
+// terminal result -- Completed, or Timeout when its deadline has passed: nobody will look at it again
+//@ loop 2 step req != nil ==> len(req.CompletedC) > 0
 
 // ---------------------------------------------------------------- snapshot worker pool (C11)
 // From the property: no user state machine method runs after (or concurrently with) its Close.
